@@ -5,15 +5,23 @@ given in NOT_CLAIMED (default: not built yet)."""
 
 CLAIMED = {
     "C06": {
-        "design_ref": "DESIGN.md §4 C06",
-        "text": "Coq theorems over an arbitrary hash function: every accepted secret sequence is "
-                "reproduced exactly by lookup, inconsistent secrets are rejected leaving the store "
-                "unchanged, at most 48 buckets, codec round-trip; producer sequence always accepted. "
-                "Model tied to shachain/*.go by byte-exact differential runs (Gallina SHA-256) "
-                "incl. far positions reached through the codec.",
-        "note": "Trusted: Coq kernel, harness, python driver, Gallina SHA-256 (tested vs crypto/sha256 "
-                "each run). Release-rule conjunct is decided on the channel model (C02 check).",
-        "technique": "Coq proof (induction/invariant over insert sequences) + differential correspondence",
+        "design_ref": "DESIGN.md §4 C06, notes/C06.md",
+        "text": "Coq theorems for ANY hash function: every sequence of per-commitment secrets accepted by the revocation "
+                "store (k <= 2^48-1, unbounded) is reproduced exactly by LookUp, also after further inserts and across "
+                "Encode/Decode reloads; the producer's own sequence is always accepted and the store then answers like the "
+                "producer; the (k+1)-th secret is rejected iff some lower bucket b < ctz(2^48-1-k) is not reproduced (a "
+                "wrong secret at an index without trailing zeros is accepted: C06_leaf_unchecked — checked against the "
+                "commitment point by ReceiveRevocation instead); at most 48 buckets / 9+40n bytes are ever held. Tied to "
+                "shachain/*.go on every run by byte-exact differential execution with a Gallina SHA-256 (incl. far "
+                "positions via the codec and a per-bucket tamper sweep) plus independent hashlib predicates on the "
+                "implementation trace. The release-rule half (secrets released only when a newer commitment is durable, "
+                "no gaps/repeats) is decided on real channels by the release_rule predicate of the C02/C03 checks and by "
+                "C02_revoke_advances_tail / C02_tail_height_monotone on the channel model.",
+        "note": "Trusted: Coq kernel, harness, python driver, Gallina SHA-256 (tested vs crypto/sha256 each run). The "
+                "2^48-th insert (Go array index 48) is outside the guard. No T1 translator for the bit helpers (hand-"
+                "written in Go shape, proved arithmetically, tied by the differential run).",
+        "technique": "Coq proof (induction/invariant over insert sequences, arithmetic characterisation of derivability) "
+                     "+ byte-exact differential correspondence + trace predicates",
     },
 }
 
@@ -313,6 +321,33 @@ CLAIMED["C17"] = {
             "modelled. No T1 translator (arith functions tied by T2 grids).",
     "technique": "Coq proof (symmetry/algebra, potential-function termination measure, cycle invariant for the "
                  "refutation) + differential correspondence on real channels and ChanClosers + implementation-side predicates",
+}
+
+CLAIMED["C13"] = {
+    "design_ref": "DESIGN.md §4 C13, notes/C13.md",
+    "text": "Proved on the restart model of the channel arbitrator (disk = everything lnd persists for one channel's "
+            "arbitration; threads = channelAttendant, one resolveContract goroutine per contract, anchor resolver, "
+            "ChainArbitrator.ResolveContract; one micro step per kvdb transaction in code order; crash at any instant), "
+            "for ALL histories with any number of stops: (1) every history that marks the channel fully resolved has "
+            "exactly the upstream resolutions per HTLC, final outcomes, NotifyChannelResolved and resolver reports of the "
+            "uninterrupted run; (2) every upstream output ever produced is one of the uninterrupted run, hence no "
+            "fail+settle contradiction; (3) the channel is marked resolved only with an empty contract set and from "
+            "StateFullyResolved; (4) progress: every history can be extended without a further stop to one that marks the "
+            "channel resolved, with the repaired F1 window proved recovered. Exception F2 (dust fail-back lost after a "
+            "stop between InsertConfirmedCommitSet and MarkChannelClosed with a dangling HTLC; known finding, shares its "
+            "root cause with C12-F1) is the exact hypothesis of (1) and refuted by a witness. Tie: the real "
+            "ChannelArbitrator on the real bolt arbitrator log behind a stop-the-world kvdb wrapper, 12 close scenarios, "
+            "a stop after EVERY committed transaction plus repeated stops; every database snapshot sequence must be a "
+            "model path, final database and output sets equal, and the implementation is compared with its own "
+            "uninterrupted run. Finding C13-F1 was found by this check and repaired in /repo (2099ea4).",
+    "note": "Which chain actions/resolvers a close yields is an input (C12); resolvers are staged scripts validated "
+            "against persisted resolver bytes. Not modelled: success/incoming-contest resolvers, legacy nursery paths, "
+            "sweeper persistence, reorgs, DB write errors other than the stop. Progress = existence of a terminating "
+            "crash-free schedule from every reachable state, not fairness. bbolt transaction atomicity assumed. Trusted: "
+            "Coq kernel, harness mocks, python predicate.",
+    "technique": "Coq proof (two inductive invariants over all interleavings and crash points + lexicographic "
+                 "termination measure) + stop-the-world differential correspondence on the real arbitrator/bolt log + "
+                 "implementation-vs-uninterrupted-run predicate",
 }
 
 NOT_CLAIMED = {}
